@@ -54,6 +54,12 @@ Q(id='C09.run_kalign', props=['C09', 'C05'], cls='P', harness='c09_run_kalign.c'
   assumptions=[A_WRAP, A_NOFAIL],
   native_srcs=['lib/src/tldevel.c', 'lib/src/tlmisc.c'])
 
+Q(id='C09.main', props=['C09', 'C04', 'C05'], cls='B', harness='c09_main.c', entry='h_c09_main',
+  mode='wrap', unwind=12, timeout=900, funcs=['main', 'run_kalign', 'set_aln_type', 'init_param', 'free_parameters', 'check_msa_format_string'],
+  trusted=[TRUST_MSG, 'getopt_long_only: stub delivering two symbolic option codes with distinct argument strings, then -1 and optind', 'atof / atoi: stubs returning one symbolic value per argument string',
+           'isatty: symbolic; fileno: 0', 'kalign_read_input/kalign_run/kalign_write_msa/kalign_free_msa: recording stubs', 'strstr: textbook stub'],
+  assumptions=[A_WRAP, A_NOFAIL, 'bounded: command lines with two options (any two of --type -f -n -q --set --gpo --gpe --tgpe -i -o, repeats included) and 0-2 positional files; --help / --version / --showw / unknown options end the program before a run and are not exercised'],
+  native_srcs=['lib/src/tldevel.c', 'lib/src/tlmisc.c'])
 # =========================================================================== alphabets (C14, C05)
 Q(id='C14.create_alphabet', props=['C14', 'C05'], cls='P', harness='c14_alphabet.c', entry='h_c14_alphabet',
   mode='dfcc', enforce=['create_alphabet'], unwind=130, timeout=600,
@@ -912,7 +918,7 @@ PROPS['C08'].update(
                 'the k-means fallback, upgma on all-equal distances and the induction over the recursion / guide tree are meta-arguments or undecided'))
 PROPS['C09'].update(
     level_note=('trusted: no-op diagnostic printers, textbook strstr stub, recording stubs for the library entry points called by run_kalign; malloc assumed to succeed; frame (assigns) not checked because goto-instrument --dfcc does not finish on 23x23 heap tables; '
-                'the getopt loop of main() is not under contract: two static facts pin the three penalty options (stored with atof, each in its own field)'))
+                'main() from the option loop to the library calls is checked bounded (C09.main: two options and two positional files per command line, getopt / atof / atoi stubbed); two static facts pin the three penalty options (stored with atof, each in its own field)'))
 PROPS['C12'].update(
     level_text=('chain of component checks: bpm_block / bpm equal the edit-distance reference (C11, so identical sequences are at distance 0 and non-contained ones at >= 1); calc_distance returns that value (proved); '
                 'the real d_estimation (pair mode) adds a length term in [0,1] and is symmetric (C12.d_estimation, the premise of the next step, verbatim); '
